@@ -33,11 +33,11 @@ func (Direct) Do(_ string, op func() error) error { return op() }
 // so it may sleep to widen windows). Any field may be nil.
 type Observer struct {
 	AfterListDir    func(path string, names []string)
-	BeforeRemove    func(path string)       // kv.removeFunc (manifest files)
-	BeforeRemoveDir func(path string)       // kv.removeDirFunc (table files)
-	AfterMap        func(path string)       // table file mapped
-	BeforeUnmap     func(path string)       // table file about to be unmapped
-	AfterUnmap      func(path string)       // table file unmapped
+	BeforeRemove    func(path string)                                  // kv.removeFunc (manifest files)
+	BeforeRemoveDir func(path string)                                  // kv.removeDirFunc (table files)
+	AfterMap        func(path string)                                  // table file mapped
+	BeforeUnmap     func(path string)                                  // table file about to be unmapped
+	AfterUnmap      func(path string)                                  // table file unmapped
 	PageWrite       func(path string, kind string, offset, length int) // before a store into a queue page
 }
 
